@@ -298,6 +298,17 @@ def one_case(ctx, tie, LR, NR, c, mode):
                 lambda tk, w=want_t: None if near(floats(tk), w, 5e-4 * scale) else 'implementation %s vs generated %s' % (w.tolist(), floats(tk).tolist()), rec)
         tie.add('reflect [n,2,3] numpy', 'gb_reflect 0 ' + line,
                 lambda tk, w=want_n: None if near(floats(tk), w, 1e-9 * scale) else 'implementation %s vs generated %s' % (w.tolist(), floats(tk).tolist()), rec)
+        # mixed sizes: all rays at ONE normal, ONE ray at all normals
+        i0 = rng.randrange(m)
+        for which, many, single, call_t, call_n in (
+                (0, rays, nrmj[i0], lambda: LR.reflect(rt, t32(nrmj[i0])), lambda: NR.reflect(rays.copy(), nrmj[i0].copy())),
+                (1, nrmj, rays[i0], lambda: LR.reflect(rt[i0], t32(nrmj)), lambda: NR.reflect(rays[i0].copy(), nrmj.copy()))):
+            line = '%d %d %s %s' % (which, m, fl(many), fl(single))
+            wt_, wn_ = as64(call_t()).reshape(m, 6), np.asarray(call_n(), dtype=np.float64).reshape(m, 6)
+            tie.add('reflect mixed sizes torch', 'gb_reflect1 1 ' + line,
+                    lambda tk, w=wt_: None if near(floats(tk), w, 5e-4 * scale) else 'implementation %s vs generated %s' % (w.tolist(), floats(tk).tolist()), rec)
+            tie.add('reflect mixed sizes numpy', 'gb_reflect1 0 ' + line,
+                    lambda tk, w=wn_: None if near(floats(tk), w, 1e-9 * scale) else 'implementation %s vs generated %s' % (w.tolist(), floats(tk).tolist()), rec)
     # ---- intersect_w_circle with the batch of rays (plane of triangle j, centre = centroid), both APIs
     if not degenerate[j] and all(info[j][i][0] == 'safe' for i in range(m)):
         centre = np.asarray(tris[j].mean(0), dtype=np.float32).astype(np.float64)
